@@ -1,4 +1,12 @@
-// src/common.rs: group_diff_ops (property C12), with the DiffOp enum of src/types.rs
+// src/common.rs: group_diff_ops (property C12), with the DiffOp enum of src/types.rs.
+//
+// Rewrites on group_diff_ops (tools/rewrites.py, validated by tools/diffexec_group.py):
+//   R5  `match &pending_group[..] { &[] | &[DiffOp::Equal { .. }] => A, _ => B }` -> if/else on len() and matches!
+//   R6  `for op in ops.into_iter() { .. continue .. }` -> Rust-reference desugaring (`loop` over an explicit iterator)
+//   R0/R8 result named `res`, body / loop braces on their own line (no semantics)
+// Trusted: nothing beyond vstd's own specifications of Vec::{new,push,len,index,is_empty,first_mut,last_mut,
+// into_iter}, vec::IntoIter::next (IteratorSpec::remaining), usize::saturating_sub, vec![..]: this file declares
+// no trusted item of its own.
 use vstd::std_specs::iter::IteratorSpec as _;
 verus! {
 
@@ -206,7 +214,8 @@ pub fn group_diff_ops(mut ops: Vec<DiffOp>, n: usize) -> (res: Vec<Vec<DiffOp>>)
 
     /*@*/ let ghost opsf = ops@;
     /*@*/ assert(opsf.len() == ops0.len());
-    /*@*/ assert(opsf[0] == trimmed_op(ops0, ni, 0) || (ops0.len() > 1 && opsf[0] == ops0[0]));
+    /*@*/ assert(opsf[0] == trimmed_op(ops0, ni, 0));
+    /*@*/ assert(forall|i: int| 1 <= i < opsf.len() ==> opsf[i] == ops0[i]);
     if let Some(DiffOp::Equal { len, .. }) = ops.last_mut() {
         *len -= (*len).saturating_sub(n);
     }
@@ -443,6 +452,44 @@ proof fn lemma_c12_expand_range(ops: Seq<DiffOp>, n: int, a: int, b: int)
     }
 }
 
+proof fn lemma_c12_seq_algebra(x: Seq<DiffOp>, tl: Seq<DiffOp>, mid: Seq<DiffOp>, h: DiffOp, t: DiffOp)
+    ensures
+        (x + ((tl + mid) + seq![h])) + seq![t] == ((x + tl) + mid) + seq![h, t],
+        x + (tl + mid) == (x + tl) + mid,
+{
+    assert((x + ((tl + mid) + seq![h])) + seq![t] =~= ((x + tl) + mid) + seq![h, t]);
+    assert(x + (tl + mid) =~= (x + tl) + mid);
+}
+
+/// the group after cut m-1 up to cut m (or the list end), spelled out; no splitting point lies inside
+proof fn lemma_c12_group_shape(ops: Seq<DiffOp>, n: int, gs: Seq<Seq<DiffOp>>, c: Seq<int>, m: int)
+    requires grouped(ops, n, gs, c), 0 <= m <= c.len(),
+    ensures
+        ({
+            let lo = cut_at(ops, c, m - 1);
+            let hi = cut_at(ops, c, m);
+            let tl = if m > 0 { seq![ctx_tail(ops[c[m - 1]], n)] } else { Seq::<DiffOp>::empty() };
+            let mid = Seq::new((hi - lo - 1) as nat, |t: int| trimmed_op(ops, n, lo + 1 + t));
+            &&& -1 <= lo < hi <= ops.len()
+            &&& (m < c.len() ==> is_split(ops, n, hi) && gs[m] == (tl + mid) + seq![ctx_head(ops[hi], n)])
+            &&& (m == c.len() ==> gs[m] == tl + mid)
+            &&& expand(ops, n, hi) == expand(ops, n, lo + 1) + mid
+        }),
+{
+    let lo = cut_at(ops, c, m - 1);
+    let hi = cut_at(ops, c, m);
+    if m > 0 { assert(is_split(ops, n, c[m - 1])); }
+    if m < c.len() { assert(is_split(ops, n, c[m])); }
+    if 0 < m < c.len() { assert(c[m - 1] < c[m]); }
+    assert(gs[m] == group_between(ops, n, lo, hi));
+    assert forall|i: int| lo + 1 <= i < hi implies !is_split(ops, n, i) by { lemma_c12_no_split_between(ops, n, c, m, i); }
+    lemma_c12_expand_range(ops, n, lo + 1, hi);
+    let tl = if m > 0 { seq![ctx_tail(ops[c[m - 1]], n)] } else { Seq::<DiffOp>::empty() };
+    let mid = Seq::new((hi - lo - 1) as nat, |t: int| trimmed_op(ops, n, lo + 1 + t));
+    assert(group_open(ops, n, lo, hi) == tl + mid);
+    if m == c.len() { assert(gs[m] =~= tl + mid); }
+}
+
 /// the first m groups, plus the second half of splitting point m-1, are the pieces of ops[0..=c[m-1]]
 proof fn lemma_c12_concat_prefix(ops: Seq<DiffOp>, n: int, gs: Seq<Seq<DiffOp>>, c: Seq<int>, m: int)
     requires grouped(ops, n, gs, c), 0 <= m <= c.len(),
@@ -455,21 +502,20 @@ proof fn lemma_c12_concat_prefix(ops: Seq<DiffOp>, n: int, gs: Seq<Seq<DiffOp>>,
         assert(concat(gs.take(0)) + Seq::<DiffOp>::empty() =~= Seq::<DiffOp>::empty());
     } else {
         lemma_c12_concat_prefix(ops, n, gs, c, m - 1);
+        lemma_c12_group_shape(ops, n, gs, c, m - 1);
         let lo = cut_at(ops, c, m - 2);
         let hi = c[m - 1];
-        assert(is_split(ops, n, hi));
-        if m >= 2 { assert(c[m - 2] < c[m - 1]); assert(is_split(ops, n, lo)); }
-        assert(gs.take(m).drop_last() =~= gs.take(m - 1));
-        assert(gs.take(m).last() == gs[m - 1]);
-        assert(gs[m - 1] == group_between(ops, n, lo, hi));
-        assert forall|i: int| lo + 1 <= i < hi implies !is_split(ops, n, i) by { lemma_c12_no_split_between(ops, n, c, m - 1, i); }
-        lemma_c12_expand_range(ops, n, lo + 1, hi);
-        assert(expand(ops, n, hi + 1) == expand(ops, n, hi) + pieces(ops, n, hi));
+        let x = concat(gs.take(m - 1));
         let tl = if m - 1 > 0 { seq![ctx_tail(ops[c[m - 2]], n)] } else { Seq::<DiffOp>::empty() };
         let mid = Seq::new((hi - lo - 1) as nat, |t: int| trimmed_op(ops, n, lo + 1 + t));
-        assert(gs[m - 1] =~= tl + mid + seq![ctx_head(ops[hi], n)]);
-        assert(concat(gs.take(m)) + seq![ctx_tail(ops[hi], n)]
-            =~= (concat(gs.take(m - 1)) + tl) + mid + seq![ctx_head(ops[hi], n), ctx_tail(ops[hi], n)]);
+        let h = ctx_head(ops[hi], n);
+        let t = ctx_tail(ops[hi], n);
+        assert(gs.take(m).drop_last() =~= gs.take(m - 1));
+        assert(gs.take(m).last() == gs[m - 1]);
+        assert(concat(gs.take(m)) == x + ((tl + mid) + seq![h]));
+        assert(expand(ops, n, hi + 1) == expand(ops, n, hi) + pieces(ops, n, hi));
+        assert(pieces(ops, n, hi) == seq![h, t]);
+        lemma_c12_seq_algebra(x, tl, mid, h, t);
     }
 }
 
@@ -482,17 +528,16 @@ pub proof fn lemma_c12_concat(ops: Seq<DiffOp>, n: int, gs: Seq<Seq<DiffOp>>, c:
 {
     let m = c.len() as int;
     lemma_c12_concat_prefix(ops, n, gs, c, m);
+    lemma_c12_group_shape(ops, n, gs, c, m);
     let lo = cut_at(ops, c, m - 1);
     let hi = ops.len() as int;
-    assert(gs.drop_last() =~= gs.take(m));
-    assert(gs.last() == group_between(ops, n, lo, hi));
-    if m > 0 { assert(is_split(ops, n, c[m - 1])); }
-    assert forall|i: int| lo + 1 <= i < hi implies !is_split(ops, n, i) by { lemma_c12_no_split_between(ops, n, c, m, i); }
-    lemma_c12_expand_range(ops, n, lo + 1, hi);
+    let x = concat(gs.take(m));
     let tl = if m > 0 { seq![ctx_tail(ops[c[m - 1]], n)] } else { Seq::<DiffOp>::empty() };
     let mid = Seq::new((hi - lo - 1) as nat, |t: int| trimmed_op(ops, n, lo + 1 + t));
-    assert(gs.last() =~= tl + mid);
-    assert(concat(gs) =~= (concat(gs.take(m)) + tl) + mid);
+    assert(gs.drop_last() =~= gs.take(m));
+    assert(gs.last() == gs[m]);
+    assert(concat(gs) == x + (tl + mid));
+    lemma_c12_seq_algebra(x, tl, mid, ops[0], ops[0]);
 }
 
 proof fn lemma_c12_changes_expand(ops: Seq<DiffOp>, n: int, k: int)
